@@ -299,8 +299,15 @@ func writeGroupIni(cmd *Command, group *Group, namespace string, writer io.Write
 	}
 }
 
+// iniNeedsQuote reports whether a string value has to be written quoted for
+// the reader to give it back unchanged: the reader trims surrounding white
+// space and unquotes values that start with a double quote.
+func iniNeedsQuote(s string) bool {
+	return !isPrint(s) || strings.TrimSpace(s) != s || strings.HasPrefix(s, "\"")
+}
+
 func writeOption(writer io.Writer, optionName string, optionType reflect.Kind, optionKey string, optionValue string, commentOption bool, forceQuote bool) {
-	if forceQuote || (optionType == reflect.String && !isPrint(optionValue)) {
+	if forceQuote || (optionType == reflect.String && iniNeedsQuote(optionValue)) {
 		optionValue = strconv.Quote(optionValue)
 	}
 
